@@ -497,17 +497,33 @@ pub fn fam_data(_cfg: &FunCfg, sink: &mut FunSink) {
         }
     }
     // multi-constructor types: every constructor, clauses written in every rotation of the order
-    for rot in 0..4usize {
+    // every permutation of the four clauses (24) x every constructor
+    let mut perms: Vec<[usize; 4]> = Vec::new();
+    for a in 0..4 {
+        for b in 0..4 {
+            for c in 0..4 {
+                for d in 0..4 {
+                    let p = [a, b, c, d];
+                    let mut q = p;
+                    q.sort();
+                    if q == [0, 1, 2, 3] {
+                        perms.push(p);
+                    }
+                }
+            }
+        }
+    }
+    for (rot, perm) in perms.into_iter().enumerate() {
         for which in 0..4usize {
             sink.offer(move || {
                 let ctors = ["Q0", "Q1", "Q2", "Q3"];
-                let mut clauses: Vec<(String, Vec<String>, T)> = vec![
+                let clauses: Vec<(String, Vec<String>, T)> = vec![
                     ("Q0".into(), vec![], lit(10)),
                     ("Q1".into(), vec!["p".into()], op(var("p"), "+", lit(20))),
                     ("Q2".into(), vec![], lit(30)),
                     ("Q3".into(), vec!["p".into(), "q".into()], op(var("p"), "*", var("q"))),
                 ];
-                clauses.rotate_left(rot);
+                let clauses: Vec<(String, Vec<String>, T)> = perm.iter().map(|i| clauses[*i].clone()).collect();
                 let value = match which {
                     0 => T::Ctor(ctors[0].into(), vec![]),
                     1 => T::Ctor(ctors[1].into(), vec![var("n")]),
@@ -558,6 +574,7 @@ pub fn fam_ctrl(_cfg: &FunCfg, sink: &mut FunSink) {
         ("label_goto_deep", "def main(n: i64): i64 { println_i64(label a { 1 + (label b { if n == 0 { goto a (10) } else { if n == 1 { goto b (20) } else { 30 } } }) }); 0 }".into()),
         ("label_in_loop", "def find(l: List[i64], v: i64): i64 { label ret { l.case[i64] { Nil => 0 - 1, Cons(h, t) => if h == v { goto ret (h * 100) } else { find(t, v) } } } }\ndef main(n: i64): i64 { println_i64(find(range(5), n)); 0 }".into()),
         ("covar_param", "def safe_div(p: i64, q: i64, k :cns i64): i64 { if q == 0 { goto k (0 - 1) } else { p / q } }\ndef main(n: i64): i64 { println_i64(label e { 1000 + safe_div(100, n, e) }); 0 }".into()),
+        ("covar_param_middle", "def pick(x: i64, k :cns i64, y: i64): i64 { if x == 0 { goto k (y) } else { x * y } }\ndef three(k1 :cns i64, p: i64, k2 :cns i64, q: i64): i64 { if p == 1 { goto k1 (q) } else { if p == 2 { goto k2 (q + 1) } else { p - q } } }\ndef main(n: i64): i64 { println_i64(label out { pick(n, out, 7) * 100 }); println_i64(label a { 10 + (label b { 100 + three(a, n, b, 5) }) }); 0 }".into()),
         ("covar_param_twice", "def pick(p: i64, k1 :cns i64, k2 :cns i64): i64 { if p == 0 { goto k1 (1) } else { if p == 1 { goto k2 (2) } else { 3 } } }\ndef main(n: i64): i64 { println_i64(label a { 10 + (label b { 100 + pick(n, a, b) }) }); 0 }".into()),
         ("label_data", "def main(n: i64): i64 { let l: List[i64] = label a { if n == 0 { goto a (Nil) } else { Cons(n, Nil) } }; println_i64(sum(l)); 0 }".into()),
         ("label_reenter", "def main(n: i64): i64 { let r: i64 = label a { if n < 0 { goto a (0 - n) } else { n } }; println_i64(r); println_i64(r + 1); 0 }".into()),
